@@ -255,8 +255,8 @@ func (s *Sim) runOracles() {
 		if !v.rs.started {
 			continue
 		}
-		if s.prog.Canned != nil {
-			continue // no handler runs: judged by the C07 oracle only
+		if s.prog.Canned != nil || v.r.RawClient {
+			continue // canned reply / raw peer: judged by the dedicated oracles only
 		}
 		v.oracleC01()
 		v.oracleC02()
@@ -377,6 +377,8 @@ func (v *view) wireLimit() string {
 		switch {
 		case strings.ContainsAny(msg, "\r\n"):
 			return "header-status-crlf"
+		case strings.IndexFunc(msg, func(r rune) bool { return (r < 0x20 && r != '\t') || r == 0x7f }) >= 0:
+			return "header-status-control-chars"
 		case msg != strings.TrimSpace(msg):
 			return "header-status-outer-blanks"
 		}
